@@ -86,7 +86,7 @@ pub const ID_POOL: [&str; 25] = ["A", "B", "C", "Base", "Inst", "x", "y", "z", "
 pub const VAR_POOL: [&str; 3] = ["$a", "$b", "$src"];
 pub const STR_POOL: [&str; 10] = ["\"\"", "\"s\"", "\"a b\"", "\"e\\\"q\"", "\"t\\n\"", "\"héé\"", "\"C:\\\\\"", "\"\\\\\\\\\"", "\"q\\\\\\\"x\"", "\"// no /* comment [{ }]\""];
 pub const INT_POOL: [&str; 15] = ["0", "1", "7", "42", "-3", "+5", "0x1F", "0b101", "9223372036854775807", "-9223372036854775808", "007", "0xabcDEF", "18446744073709551615", "9223372036854775808", "0xFFFFFFFFFFFFFFFF"];
-pub const CODE_POOL: [&str; 7] = ["[{ c }]", "[{}]", "[{ return x[i]; }]", "[{ a } b ] c }]", "[{\n  multi\n  line\n}]", "[{ if (x) { y; }}]", "[{ \"q\" // c /* d */ }]"];
+pub const CODE_POOL: [&str; 10] = ["[{ c }]", "[{}]", "[{ return x[i]; }]", "[{ a } b ] c }]", "[{\n  multi\n  line\n}]", "[{ if (x) { y; }}]", "[{ \"q\" // c /* d */ }]", "[{ v[{0}.x] }]", "[{[{}]", "[{ m[{a, b} ] = \"[{\"; }]"];
 
 pub const BANG_NOTYPE: [&str; 44] = [
     "!add", "!and", "!con", "!dag", "!div", "!empty", "!eq", "!filter", "!find", "!foldl", "!foreach", "!ge",
@@ -791,7 +791,7 @@ pub fn render(tokens: &[String], trivia: Trivia, rng: &mut Rng) -> String {
                         7 => s.push('\n'),
                         8 => s.push_str("\r\n"),
                         9 => s.push_str("\n  "),
-                        10 => s.push_str(" // c\n"),
+                        10 => s.push_str([" // c\n", " // c\r\n", "// mac\r"][rng.below(3)]),
                         11 => s.push_str([" /* c */ ", " /** doc **/ ", "/***/", " /* a **/ ", "/*****/ ", " /*//*/ x */*/ "][rng.below(6)]),
                         12 => s.push_str("\n#define FLAG\n"),
                         13 => s.push_str(" /* é€😀 */"),
